@@ -31,6 +31,9 @@ var UsedLocks int64
 type state struct {
 	writer  bool
 	readers int
+	// writers that have called Lock and are waiting: like sync.RWMutex, a pending Lock keeps new
+	// readers out (so a goroutine that read-locks recursively can deadlock with a writer in between)
+	writersWaiting int
 }
 
 //go:norace
@@ -38,13 +41,16 @@ func (s *state) CanGrant(mode int) bool {
 	if mode == 2 {
 		return !s.writer && s.readers == 0
 	}
-	return !s.writer
+	return !s.writer && s.writersWaiting == 0
 }
 
 //go:norace
 func (s *state) Grant(mode int) {
 	if mode == 2 {
 		s.writer = true
+		if s.writersWaiting > 0 {
+			s.writersWaiting--
+		}
 	} else {
 		s.readers++
 	}
@@ -91,8 +97,17 @@ func (m *RWMutex) fresh() {
 //go:norace
 func (m *RWMutex) Lock() {
 	m.fresh()
-	if simrt.LockAcquire(m.st, 2, "ssync.RWMutex.Lock") {
-		UsedLocks++
+	st := m.st
+	if simrt.StateLock() {
+		st.writersWaiting++
+		simrt.StateUnlock()
+		if simrt.LockAcquire(st, 2, "ssync.RWMutex.Lock") {
+			UsedLocks++
+		} else if simrt.StateLock() {
+			// not a simulated task: nobody will grant; undo the announcement
+			st.writersWaiting--
+			simrt.StateUnlock()
+		}
 	}
 	m.real.Lock()
 }
